@@ -19,7 +19,7 @@ SPEC_MODE = "spec"
 KEEP_PREFIX = 0
 SIZES = {"quick": 8000, "thorough": 60000}
 BATCH = 4000
-RULE = ("deliveries go through a datasource.Base from one reused buffer (ds.deliver) or directly to the handler (ds.handle), mixed; (plus real-file event sequences: 5 corpus + 4 random in quick, 60 random in thorough) payload sequences (3-12 deliveries on one or two of the five modules, fresh handlers and cleared managers per case); payloads are "
+RULE = ("12 % of the cases carry a segment on a scripted handler (ds.custom: converter nil/ok/err/panic x updater ok/err/panic, panic values error/string/nil-deref); deliveries go through a datasource.Base from one reused buffer (ds.deliver) or directly to the handler (ds.handle), mixed; (plus real-file event sequences: 5 corpus + 4 random in quick, 60 random in thorough) payload sequences (3-12 deliveries on one or two of the five modules, fresh handlers and cleared managers per case); payloads are "
         "encoded from rule values by an independent tag-driven encoder (shuffled/omitted/null/duplicate/unknown keys, boundary numbers, out-of-range "
         "and wrongly typed values), plus null elements, empty/null/[]/whitespace, truncations, garbage, exact redeliveries, A-B-A, valid-after-invalid, "
         "same rule under another id / threshold within 1e-8 / signed zero, same-length payloads differing in one digit; non-trivial = some delivery put rules in force AND the case contains a "
@@ -267,7 +267,26 @@ def gen_case(rng, cid):
         classes.append(cl + ("/b" if via else ""))
         if rng.random() < 0.12:
             ops.append(f"rules {rng.choice(MODS)}")                               # other modules are untouched
+    if rng.random() < 0.12:
+        seg = custom_segment(rng)
+        k = rng.randrange(len(ops) + 1)
+        ops[k:k] = seg
+        classes.append("custom")
     return Case(cid, ops, tags=tuple(mods) + tuple(classes))
+
+
+CONVS = ["nil", "ok:1", "ok:1", "ok:2", "ok:3", "err", "panic:err", "panic:str", "panic:deref"]
+UPDS = ["ok", "ok", "ok", "err", "panic:err", "panic:str", "panic:deref"]
+
+
+def custom_segment(rng):
+    """deliveries on the scripted handler (real DefaultPropertyHandler.Handle, converter/updater outcome chosen per delivery)"""
+    ops, last = [], None
+    for _ in range(rng.randint(3, 10)):
+        c = last if last is not None and rng.random() < 0.3 else rng.choice(CONVS)     # 30 %: the same converter result again
+        ops.append(f"ds.custom {c} {rng.choice(UPDS)}")
+        last = c
+    return ops
 
 
 def gen(ctx, n):
@@ -402,9 +421,11 @@ def file_cases(ctx, n):
         m = rng.choice(MODS)
         good = FILE_GOOD[m]
         pool = good + good + ["[]", "", "null", "[", "[1]", "garbage", " "]
-        first = rng.choice(good + good + ["", "[", "none"])
+        first = rng.choice(good + good + ["", "[", "[{", "{}", "nul", good[0][:len(good[0]) // 2], "none"])   # incl. undecodable / half-written / empty starts
         ops = [f"file.new {m} {first if first == 'none' else hexp(first)}"]
         away, closed, absent, have_away = False, first == "none", first == "none", False
+        if rng.random() < 0.3:
+            ops.append("file.reinit")
         for _ in range(rng.randint(2, 7)):
             r = rng.random()
             if absent and not away:                    # removed for good / never existed: only a re-creation makes sense
